@@ -292,6 +292,19 @@ def stepMain (ds : DState) (toks : List String) : DState × String :=
     match s.world.get a with
     | none => (ds, "?")
     | some d => ({ ds with st := { s with world := (s.world.remove b).set b { d with locked := false } } }, "ok")
+  | ["setfile", d, file, hex, zext] =>
+    -- load a file of a crash image: logical bytes plus a zero extension (capped: only its
+    -- presence matters to the reader rule)
+    let bytes := (if hex = "-" then ByteArray.empty else parseHex hex) ++ zeros (min zext.toNat! 70000)
+    let dir := (s.world.get d).getD DirSt.empty
+    if file.endsWith ".data" then
+      let id := (file.take 9).toString.toNat!
+      ({ ds with st := { s with world := s.world.set d { dir with data := setFile dir.data id ⟨bytes, 0⟩ } } }, "ok")
+    else if file.endsWith ".hint" then
+      ({ ds with st := { s with world := s.world.set d { dir with hint := some bytes } } }, "ok")
+    else if file.endsWith ".merge-finished" then
+      ({ ds with st := { s with world := s.world.set d { dir with marker := some bytes } } }, "ok")
+    else (ds, "?")
   | ["rmdir", d] => ({ ds with st := { s with world := s.world.remove d } }, "ok")
   | ["trunc", d, file, n] =>
     match s.world.get d with
@@ -319,6 +332,13 @@ def stepMain (ds : DState) (toks : List String) : DState × String :=
           if off ≥ f.bytes.size then (ds, "err:range") else
           let bytes := f.bytes.set! off ((f.bytes.get! off) ^^^ x.toNat!.toUInt8)
           ({ ds with st := { s with world := s.world.set d { dir with data := setFile dir.data id { f with bytes := bytes } } } }, "ok")
+      else if file.endsWith ".merge-finished" then
+        match dir.marker with
+        | none => (ds, "err:open")
+        | some h =>
+          let off := off.toNat!
+          if off ≥ h.size then (ds, "err:range") else
+          ({ ds with st := { s with world := s.world.set d { dir with marker := some (h.set! off ((h.get! off) ^^^ x.toNat!.toUInt8)) } } }, "ok")
       else if file.endsWith ".hint" then
         match dir.hint with
         | none => (ds, "err:open")
